@@ -805,6 +805,22 @@ fn user_packet(pool: &Pool, len: usize, c: usize) -> Option<(insim::Packet, Vec<
     pool.typed(len, c)
 }
 
+/// LfsConn.DoHandshake: the IS_ISI a caller hands to Framed::handshake (any version field, any options) and its frame
+fn handshake_isi(pool: &Pool, c: usize) -> Option<(insim::insim::Isi, Vec<u8>)> {
+    use insim::insim::{Isi, IsiFlags};
+    let isi = Isi {
+        version: [9u8, 8, 0, 255, 10, 7][c % 6],
+        udpport: [0u16, 29999, 65535][(c / 6) % 3],
+        flags: if c % 2 == 0 { IsiFlags::empty() } else { IsiFlags::MCI | IsiFlags::LOCAL },
+        prefix: if c % 5 == 0 { '!' } else { 0 as char },
+        iname: ["probe", "", "sixteen-chars-xx"][(c / 2) % 3].into(),
+        admin: ["", "pw"][(c / 3) % 2].into(),
+        ..Default::default()
+    };
+    let enc = crate::frames::try_encode(&pool.mode, &insim::Packet::Isi(isi.clone())).ok()?;
+    Some((isi, enc))
+}
+
 pub enum ReplayVerdict {
     Ok,
     Skipped(String),
@@ -863,16 +879,22 @@ pub fn replay_blocking(pool: Arc<Pool>, verify: bool, steps: Vec<Step>, seed: u6
                 s.i += 1;
             },
             "wcall" => {
-                let (p, enc) = match user_packet(&pool, st.n as usize, seed as usize + sh.lock().unwrap().i) {
-                    Some(x) => x,
-                    None => return ReplayVerdict::Skipped(format!("no user packet of length {}", st.n)),
+                let c = seed as usize + sh.lock().unwrap().i;
+                let hs = if st.n == 44 { handshake_isi(&pool, c) } else { None };
+                let (p, enc) = match (&hs, user_packet(&pool, st.n as usize, c)) {
+                    (Some((isi, enc)), _) => (insim::Packet::Isi(isi.clone()), enc.clone()),
+                    (None, Some(x)) => x,
+                    (None, None) => return ReplayVerdict::Skipped(format!("no user packet of length {}", st.n)),
                 };
                 {
                     let mut s = sh.lock().unwrap();
                     s.i += 1;
                     s.user_frame = Some(enc);
                 }
-                let r = std::panic::catch_unwind(std::panic::AssertUnwindSafe(|| framed.write(p)));
+                let r = std::panic::catch_unwind(std::panic::AssertUnwindSafe(|| match hs {
+                    Some((isi, _)) => framed.handshake(isi),
+                    None => framed.write(p),
+                }));
                 let mut s = sh.lock().unwrap();
                 if let Some(m) = &s.mismatch {
                     return ReplayVerdict::Mismatch(m.clone());
@@ -1008,16 +1030,23 @@ pub fn replay_tokio_on(pool: Arc<Pool>, verify: bool, steps: Vec<Step>, seed: u6
                     s.i += 1;
                 },
                 "wcall" => {
-                    let (p, enc) = match user_packet(&pool, st.n as usize, seed as usize + sh.lock().unwrap().i) {
-                        Some(x) => x,
-                        None => return ReplayVerdict::Skipped(format!("no user packet of length {}", st.n)),
+                    let c = seed as usize + sh.lock().unwrap().i;
+                    let hs = if st.n == 44 { handshake_isi(&pool, c) } else { None };
+                    let (p, enc) = match (&hs, user_packet(&pool, st.n as usize, c)) {
+                        (Some((isi, enc)), _) => (insim::Packet::Isi(isi.clone()), enc.clone()),
+                        (None, Some(x)) => x,
+                        (None, None) => return ReplayVerdict::Skipped(format!("no user packet of length {}", st.n)),
                     };
                     {
                         let mut s = sh.lock().unwrap();
                         s.i += 1;
                         s.user_frame = Some(enc);
                     }
-                    let mut fut = Box::pin(framed.write(p));
+                    let mut fut: std::pin::Pin<Box<dyn std::future::Future<Output = insim::Result<()>> + '_>> = match hs {
+                        // (the handshake's own time limit is generous: the scripted transport may stay not ready for minutes)
+                        Some((isi, _)) => Box::pin(framed.handshake(isi, std::time::Duration::from_secs(1_000_000))),
+                        None => Box::pin(framed.write(p)),
+                    };
                     let mut polls = 0;
                     let r = loop {
                         polls += 1;
